@@ -3,17 +3,20 @@
      drv_c20 codegen <dumpfile>     assembly text of the code-generation model for an AST dump
      drv_c20 effect <dumpfile>      Effect.checkBody on the code of every function body
      drv_c20 cells                  effect of every cast_table cell, by path analysis
-     drv_c20 scope <dumpfile>       typing side condition and theorem coverage of every function -/
+     drv_c20 scope <dumpfile>       typing side condition and theorem coverage of every function
+     drv_c20 flow <dumpfile>        hypotheses and conclusion of the label-height theorems, per function -/
 import ChibiVerif.Driver.CodegenCmd
 import ChibiVerif.Driver.EffectCmd
 import ChibiVerif.Driver.ScopeCmd
+import ChibiVerif.Driver.FlowCmd
 
 def main (args : List String) : IO UInt32 := do
   match args with
   | "codegen" :: rest => ChibiVerif.Driver.codegenMain rest
   | "effect" :: rest => ChibiVerif.Driver.effectMain rest
   | "scope" :: rest => ChibiVerif.Driver.scopeMain rest
+  | "flow" :: rest => ChibiVerif.Driver.flowMain rest
   | "cells" :: _ => ChibiVerif.Driver.cellsMain
   | _ =>
-    IO.eprintln "usage: drv_c20 codegen|effect|scope <dumpfile> | drv_c20 cells"
+    IO.eprintln "usage: drv_c20 codegen|effect|scope|flow <dumpfile> | drv_c20 cells"
     return 2
